@@ -10,6 +10,8 @@ import (
 	"errors"
 	"fmt"
 	"io"
+	"os"
+	"path/filepath"
 	"regexp"
 	"testing"
 
@@ -27,12 +29,12 @@ func canonNoNames(g *Goroutine) string {
 }
 
 type histCall struct {
-	prefix []byte
-	snap   *Snapshot
-	suffix []byte
-	err    error
-	start  int // offset in the (cut) stream where the withheld region of this call starts
-	end    int
+	prefix             []byte
+	snap               *Snapshot
+	suffix             []byte
+	err                error
+	start              int // offset in the (cut) stream where the withheld region of this call starts
+	end                int
 	readerFailedDuring bool // the scripted reader delivered its (one-shot) failure during this call
 }
 
@@ -67,11 +69,17 @@ func history(sr *scriptReader, opts *Opts, maxCalls int) (calls []histCall, pani
 
 type c10Stream struct {
 	name string
+	// opts: nil = naming only; the analysed stream is scanned with path guessing and
+	// source analysis on (its frames point at sources that exist)
+	opts func() *Opts
 	data []byte
 	// goroutine end offsets per dump, from the generators: ends[d][i] = offset where the
 	// text of goroutine i of dump d is complete.
 	ends [][]int
 }
+
+// c10SrcRoot is the scratch source tree of the analysed stream ("" = not available).
+var c10SrcRoot string
 
 func c10Streams(thorough bool) []c10Stream {
 	env := genEnv()
@@ -85,7 +93,7 @@ func c10Streams(thorough bool) []c10Stream {
 			sub.F.NoFinalNL = false
 			ends = append(ends, len(before)+len(sub.Bytes()))
 		}
-		out = append(out, c10Stream{name, data, [][]int{ends}})
+		out = append(out, c10Stream{name: name, data: data, ends: [][]int{ends}})
 	}
 	addDump("three-goroutines", "panic: boom\n\n", fixedChooser{"goroutines": 2, "g0.stack-shape": 1, "g0.creator": 2, "g0.f0.argshape": 9, "g1.stack-shape": 6, "g1.minutes": 2, "g2.locked": 1, "g2.creator": 1}, "exit status 2\n")
 	addDump("crlf-annotated", "log line\r\n", fixedChooser{"crlf": 1, "goroutines": 1, "header-annotation": 1, "frame-annotation": 2, "g0.f0.sym": 17, "g1.stack-shape": 7}, "")
@@ -124,7 +132,7 @@ func c10Streams(thorough bool) []c10Stream {
 			}
 			ends = append(ends, e)
 		}
-		out = append(out, c10Stream{name, data, [][]int{ends}})
+		out = append(out, c10Stream{name: name, data: data, ends: [][]int{ends}})
 	}
 	addRace("race", "out\n", fixedChooser{"op0.frames": 1, "op1.args": 1, "sec0.frames": 1}, "Found 1 data race(s)\n")
 	addRace("race3-reordered", "", fixedChooser{"ops": 1, "section-order-0": 2, "section-for-op1": 1, "op2.write": 1}, "after\n")
@@ -135,7 +143,26 @@ func c10Streams(thorough bool) []c10Stream {
 	for _, e := range b.ends[0] {
 		e2 = append(e2, e+len(a.data))
 	}
-	out = append(out, c10Stream{"dump+race", both, [][]int{a.ends[0], e2}})
+	out = append(out, c10Stream{name: "dump+race", data: both, ends: [][]int{a.ends[0], e2}})
+	// frames that resolve on disk, scanned with path guessing and source analysis on:
+	// what those stages add to a complete goroutine must not depend on the cut either
+	if c10SrcRoot != "" {
+		seeds, full := c03SourceSeeds(c10SrcRoot)
+		data := seeds[0]
+		var ends []int
+		for off := 0; ; {
+			i := bytes.Index(data[off:], []byte("\n\ngoroutine "))
+			if i < 0 {
+				break
+			}
+			if bytes.Contains(data[:off+i], []byte("goroutine ")) {
+				ends = append(ends, off+i+1)
+			}
+			off += i + 2
+		}
+		ends = append(ends, bytes.Index(data, []byte("exit status 2")))
+		out = append(out, c10Stream{name: "analysed", opts: full, data: data, ends: [][]int{ends}})
+	}
 	if thorough {
 		addDump("five-goroutines", "", fixedChooser{"goroutines": 3, "g0.creator": 1, "g1.stack-shape": 2, "g2.stack-shape": 6, "g3.creator": 2, "g4.f0.argshape": 30}, "\nPASS\n")
 		addDump("long-symbols", "", fixedChooser{"goroutines": 1, "g0.f0.sym": 22, "g0.f0.file": 5, "g1.f0.sym": 28, "g1.f0.file": 6}, "")
@@ -155,7 +182,15 @@ func TestVerifC10(t *testing.T) {
 		t.Logf("replay %s: %s\nexpected: %s\nobserved: %s\ninput: %q", rv.Key, rv.Summary, rv.Expected, rv.Observed, trunc(string(rv.Input())))
 		return
 	}
-	opts := &Opts{NameArguments: true}
+	// a directory name of fixed length: the stream's bytes contain it, and every shard
+	// must see the same offsets
+	if root := filepath.Join(os.Getenv("VERIF_SCRATCH"), fmt.Sprintf("c10src-%s-%03d", h.Hash(envPart())[:6], r.Shard)); os.MkdirAll(root, 0o755) == nil {
+		defer os.RemoveAll(root)
+		if rp, err := filepath.EvalSymlinks(root); err == nil {
+			root = rp
+		}
+		c10SrcRoot = root
+	}
 	streams := c10Streams(r.Thorough())
 	seq := 0
 	nDel := 2
@@ -164,6 +199,10 @@ func TestVerifC10(t *testing.T) {
 	}
 	for _, st := range streams {
 		data := st.data
+		opts := &Opts{NameArguments: true}
+		if st.opts != nil {
+			opts = st.opts()
+		}
 		// the uncut reference
 		refCalls, p, _ := history(&scriptReader{data: data}, opts, 100)
 		if p != "" {
